@@ -46,7 +46,7 @@ def make_item(it, flip, transformed):
 
 def drive(sc):
     par = sc["par"]
-    tol = None if par["tolnone"] else 0.1
+    tol = None if par["tolnone"] else (0.0 if par.get("tol") == "zero" else 0.1)
     plan = Plan(OptimizerContext(evaluator=lambda *_: None, plugin_manager=plugin_manager()))
     tracked, other = uuid.uuid4(), uuid.uuid4()
     tracker = plan.add_handler("tracker", what=par["what"], constraint_tolerance=tol, sources={tracked})
